@@ -610,6 +610,10 @@ package core
 //@   props C13 C04
 //@   ensures [clean-or-refused] r1 == nil ==> r0 == strcat("rule_group/", groupID) && cleanGroupId(groupID)
 //@   modifies nothing
+//@ func CheckRuleGroupID
+//@   props C13
+//@   ensures [accepts-only-clean-ids] result == nil ==> cleanGroupId(groupID)
+//@   modifies nothing
 //@ func (*Storage).SaveRuleGroup
 //@   props C13 C04
 //@   ensures [refused-unless-cleaning-leaves-the-key-alone] result == nil ==> cleanGroupId(groupID)
